@@ -45,7 +45,7 @@ pub fn run(ctx: &Ctx) -> Report {
     let thorough = ctx.thorough();
     let cfgs = configs(ctx);
     let want = if thorough { 34 } else { 3 };
-    if cfgs.len() < want {
+    if cfgs.len() != want {
         crate::pool::machinery_failure(&format!("C10: {} configuration binaries found under harness/target/c10/bin, expected {} (run through ./check)", cfgs.len(), want));
     }
     // programs: the repository's scripts (with their module table) and the generator corpora
